@@ -41,6 +41,7 @@ type World struct {
 	concrete []types.Type
 
 	ImmutableViolations []string
+	indexByContainer    bool
 }
 
 func repoDir() string {
@@ -179,6 +180,24 @@ func (w *World) ExprText(pos token.Pos, want func(ast.Node) bool) string {
 		if want(n) {
 			b := w.src(tf.Name())
 			s, e := tf.Offset(n.Pos()), tf.Offset(n.End())
+			// indexing obligations are identified by the indexed container, not by the index expression:
+			// "every indexing of X in this function is in bounds"
+			switch x := n.(type) {
+			case *ast.IndexExpr:
+				if w.indexByContainer {
+					s2, e2 := tf.Offset(x.X.Pos()), tf.Offset(x.X.End())
+					if s2 >= 0 && e2 <= len(b) && s2 < e2 {
+						return normText(string(b[s2:e2])) + "[]"
+					}
+				}
+			case *ast.SliceExpr:
+				if w.indexByContainer {
+					s2, e2 := tf.Offset(x.X.Pos()), tf.Offset(x.X.End())
+					if s2 >= 0 && e2 <= len(b) && s2 < e2 {
+						return normText(string(b[s2:e2])) + "[:]"
+					}
+				}
+			}
 			if s >= 0 && e <= len(b) && s < e {
 				return normText(string(b[s:e]))
 			}
